@@ -10,6 +10,7 @@ CONSTANTS
   FullLevels = {2}
   MedLevels = {}
   TinyLevels = {}
+  AliasLevels = {}
   XOffs = {31,32,33}
   XLens = {32}
   MaxLen = 70
